@@ -637,6 +637,16 @@ static bool mutate(Tree &root, int kind, Rng &rng)
     return false;
 }
 
+// `--mode c01` / `--mode c02`: report only that property's oracle failures (the findings file is per property);
+// without --mode both are reported
+static std::string g_mode;
+static void fail(const std::string &key, const std::string &replay)
+{
+    if (g_mode == "c01" && key.rfind("C01:", 0) != 0) { stat("oracle_failures_of_other_property"); return; }
+    if (g_mode == "c02" && key.rfind("C02:", 0) != 0) { stat("oracle_failures_of_other_property"); return; }
+    oracleFail(key, replay);
+}
+
 // ---------------------------------------------------------------- one document through the real class
 struct DocResult { bool accepted = false; std::string cin, cout; Vals vals; QByteArray out; };
 
@@ -661,8 +671,8 @@ static bool processDoc(const ClassEntry &c, const QByteArray &xml, const std::st
     // C02 oracle, model independent: one parse/serialize pass is a fixpoint
     QByteArray out2; Vals vals2; bool wf2 = false;
     bool acc2 = runReal(c, r.out, out2, vals2, wf2);
-    if (!wf2) oracleFail("C02:output-not-wellformed:" + c.name, xml.toHex().toStdString());
-    else if (!acc2 || canonWriter(out2) != r.cout) oracleFail("C02:not-fixpoint:" + c.name, xml.toHex().toStdString());
+    if (!wf2) fail("C02:output-not-wellformed:" + c.name, xml.toHex().toStdString());
+    else if (!acc2 || canonWriter(out2) != r.cout) fail("C02:not-fixpoint:" + c.name, xml.toHex().toStdString());
     else oraclePass()++;
     return true;
 }
@@ -672,6 +682,7 @@ int main(int argc, char **argv)
     QCoreApplication app(argc, argv);
     Args args = parseArgs(argc, argv);
     Rng rng(args.seed);
+    g_mode = args.mode;
     bool thorough = args.tier == "thorough";
     auto table = classTable();
 
@@ -698,7 +709,7 @@ int main(int argc, char **argv)
 
     const int mutationsPerDoc = thorough ? 6 : 3;
     size_t g = 0;
-    std::vector<std::string> fullDoc(table.size());  // index 256 (everything present) of each class, for cross-class feeding
+    std::vector<std::string> fullDoc(table.size());  // the largest generated document of each class: spelling sweep, cross-class feeding
     for (size_t k = 0; k < table.size(); k++) {
         const ClassEntry &c = table[k];
         stat("classes_modelled");
@@ -707,7 +718,7 @@ int main(int argc, char **argv)
             const std::string valText = gen[g++], treeText = gen[g++];
             Vals v; Tree doc;
             if (!valsOfText(valText, v) || !treeOfCanon(treeText, doc)) { fprintf(stderr, "cannot read driver output for %s %u: %s / %s\n", c.name.c_str(), i, valText.c_str(), treeText.c_str()); return 3; }
-            if (i == 256 || fullDoc[k].empty()) fullDoc[k] = treeText;
+            if (i < 600 && treeText.size() > fullDoc[k].size()) fullDoc[k] = treeText;
             std::string what = "gen" + std::to_string(i);
 
             // (a) object built from the values with the real setters: real toXml vs model encode; C01 field oracle.
@@ -723,13 +734,13 @@ int main(int argc, char **argv)
             else {
                 QByteArray out; Vals back; bool wf = false;
                 bool acc = runReal(c, own, out, back, wf);
-                if (!wf) oracleFail("C01:own-output-not-wellformed:" + c.name, setText);
-                else if (!acc) oracleFail("C01:own-output-rejected:" + c.name, setText);
+                if (!wf) fail("C01:own-output-not-wellformed:" + c.name, setText);
+                else if (!acc) fail("C01:own-output-rejected:" + c.name, setText);
                 else {
                     std::string p = diffPath(set, back, &c.fieldNames);
-                    if (!p.empty()) oracleFail("C01:field-mismatch:" + c.name + ":" + p, setText + " -> " + showVals(back));
+                    if (!p.empty()) fail("C01:field-mismatch:" + c.name + ":" + p, setText + " -> " + showVals(back));
                     else oraclePass()++;
-                    if (canonWriter(out) != ownCanon) oracleFail("C01:own-form-roundtrip:" + c.name, setText);
+                    if (canonWriter(out) != ownCanon) fail("C01:own-form-roundtrip:" + c.name, setText);
                     else oraclePass()++;
                 }
             }
@@ -742,7 +753,7 @@ int main(int argc, char **argv)
             if (r.cin == treeText) {
                 stat("own_form_documents");
                 // own-form round trip on the generated document (the document is the model's; the comparison is on the real output)
-                if (!r.accepted || r.cout != r.cin) oracleFail("C01:own-form-roundtrip:" + c.name, xml.toHex().toStdString());
+                if (!r.accepted || r.cout != r.cin) fail("C01:own-form-roundtrip:" + c.name, xml.toHex().toStdString());
                 else oraclePass()++;
             } else stat("documents_changed_by_qdom_blank_text");
 
